@@ -112,6 +112,19 @@ def ensure_nonempty(objs):
     return objs
 
 
+def ensure_big(objs):
+    """Large class, by construction: one alignment-1 section alone exceeds wild's default merge group
+    size (140000 bytes), so the default parameters produce >= 2 input groups."""
+    o = objs[0]
+    if not o["secs"]:
+        o["secs"].append({"name": 0, "al": 0, "items": [], "unterminated": False})
+    sec = o["secs"][0]
+    sec["al"] = 0
+    seed = sum(len(x["secs"]) for x in objs) * 7 + len(sec["items"])
+    sec["items"] = sec["items"][:2] + [["r", 24000, seed, 20, 2]]
+    return objs
+
+
 def case_strategy(tier):
     def build(size_class):
         return st.fixed_dictionaries({
@@ -119,7 +132,8 @@ def case_strategy(tier):
             "objs": st.lists(st.fixed_dictionaries({
                 "secs": st.lists(section_strategy(size_class), min_size=0, max_size=4 if size_class != "large" else 2),
                 "cst": cst_strategy(),
-            }), min_size=1, max_size=6 if size_class != "large" else 3).map(ensure_nonempty),
+            }), min_size=1, max_size=6 if size_class != "large" else 3).map(
+                ensure_big if size_class == "large" else ensure_nonempty),
             "refs": st.lists(ref_strategy(), min_size=1, max_size=12),
             "sweep": st.integers(0, 40),
             "cst_refs": st.lists(st.tuples(st.integers(0, 5), st.integers(0, 95), st.booleans()), max_size=3),
@@ -354,7 +368,15 @@ def emit_object(oi, o, cst_refs, d):
             lines.append(f"  mov {r.sym}@GOTPCREL(%rip), %rdi")
         lines.append("  call emit")
     lines.append("  ret")
-    tools.asm("\n".join(lines) + "\n", f"o{oi}.o", cwd=d)
+    asm("\n".join(lines) + "\n", f"o{oi}.o", d)
+
+
+def asm(text, out, cwd):
+    """tools.asm with one retry (an assembler timeout on an overloaded machine is not a verdict)."""
+    try:
+        return tools.asm(text, out, cwd=cwd)
+    except Inconclusive:
+        return tools.asm(text, out, cwd=cwd)
 
 
 MAIN_RT = r"""
@@ -408,7 +430,7 @@ def emit_main(objs, d):
         lines.append(f"    call f_{oi}")
     lines.append("    xor %edi, %edi\n    mov $60, %eax\n    syscall")
     lines.append('.section .rodata.nl,"a",@progbits\nnl: .byte 10')
-    tools.asm("\n".join(lines) + "\n", "main.o", cwd=d)
+    asm("\n".join(lines) + "\n", "main.o", d)
 
 
 # ------------------------------------------------------------------------------------------------
